@@ -606,9 +606,9 @@ def diagnose(obj_canon_space: Any, obs: Any, exc: Optional[str], facts: dict) ->
 SCENARIOS = [
     "src/primaite/config/_package_data/data_manipulation.yaml",
     "tests/assets/configs/firewall_actions_network.yaml",
-    "tests/assets/configs/basic_switched_network.yaml",
-    "tests/assets/configs/extended_config.yaml",
-    "tests/assets/configs/nodes_with_initial_files.yaml",
+    "tests/assets/configs/action_penalty.yaml",
+    "tests/assets/configs/test_application_install.yaml",
+    "tests/assets/configs/fixing_duration_one_item.yaml",
     "tests/assets/configs/test_primaite_session.yaml",
     "src/primaite/config/_package_data/uc7_config.yaml",
     "tests/assets/configs/shared_rewards.yaml",
@@ -644,6 +644,12 @@ def mutate_cfg(cfg: dict, rng: Rng) -> dict:
             if comp["type"] != "nodes":
                 continue
             o = comp["options"]
+            fw = [n["hostname"] for n in sim.get("nodes", []) if n.get("type") == "firewall"]
+            if fw and "ip_list" in o and rng.chance(2, 3):
+                o["firewalls"] = [{"hostname": h} for h in fw]
+                o["include_users"] = rng.chance(1, 2)
+            if o.get("routers") and rng.chance(1, 3):
+                o["num_ports"] = rng.range(1, 5)
             if o.get("hosts"):
                 for k in ("include_nmne", "include_num_access"):
                     o[k] = rng.chance(1, 2)
